@@ -230,7 +230,10 @@ def build_qconn(spec: QSpec, rng) -> QConn:
         K["early"] = Keys(hname, early, klen, mode)
         ref_keys["early"] = K["early"].material()
 
-    tp = b"".join(varint(i) + varint(len(v)) + v for i, v in ((1, varint(30000)), (4, varint(1 << 20)), (0x0f, c_scid)))
+    tps = [(1, varint(30000)), (4, varint(1 << 20)), (0x0f, c_scid), (27 + 31 * 5, b"\x01\x02")]      # incl. one reserved (GREASE) parameter, RFC 9000 18.1
+    if spec.grease:
+        tps.insert(2, (0x2ab2, b""))                  # grease_quic_bit, RFC 9287
+    tp = b"".join(varint(i) + varint(len(v)) + v for i, v in tps)
     ce = (ext(0, b"\x00\x0e\x00\x00\x0bexample.org") + ext(16, b"\x00\x03\x02h3") + ext(43, b"\x02\x03\x04") +
           ext(51, b"\x00\x24\x00\x1d\x00\x20" + rb(32)) + ext(57, tp))
     offered = b"".join(s.to_bytes(2, "big") for s in spec.offered)
